@@ -178,7 +178,7 @@ func ParseIPv6CPPacket(data []byte) (code uint8, id uint8, payload []byte, err e
 	code = data[0]
 	id = data[1]
 	length := binary.BigEndian.Uint16(data[2:4])
-	if int(length) > len(data) {
+	if int(length) < 4 || int(length) > len(data) {
 		return 0, 0, nil, ErrShortPacket
 	}
 	return code, id, data[4:length], nil
